@@ -72,6 +72,7 @@ type env struct {
 	// plan still exercises everything else
 	current        string // the call in progress (for panic attribution)
 	fs             string
+	nilSelf        bool // the probe at the end of a database: a nil pointer to a self-serializing type
 	allSet         bool // the first Create of a database sets every embedded pointer
 	gapOK          bool
 	noNilSerGroups bool
@@ -254,6 +255,8 @@ func (e *env) newRec(shape string, idx int, keyMode string, fnZero map[int]bool,
 			} else {
 				v = genValue(r, l, 2)
 			}
+		case e.nilSelf && l.typ == ptrTo(SelfJS{}):
+			v = reflect.Zero(l.typ)
 		default:
 			v = genValue(r, l, 0)
 		}
@@ -612,6 +615,9 @@ func (e *env) runStructShape(shape string, forceKey string) {
 	r := e.r
 	m := e.m
 	e.current = "Create/" + shape
+	if e.nilSelf {
+		e.current = "Create/single-nil-self-serializer-pointer"
+	}
 	if forceKey == "" {
 		e.liftBig()
 	}
@@ -673,8 +679,8 @@ func (e *env) runStructShape(shape string, forceKey string) {
 	before := e.h.Clock.Ticks()
 	switch shape {
 	case "single":
-		res = e.tx().Create(recs[0].ptr.Interface())
 		e.op("%s.Create(&T%s)", e.recv(), lits[0])
+		res = e.tx().Create(recs[0].ptr.Interface())
 	case "slice-values", "batches-values":
 		sv := reflect.New(reflect.SliceOf(m.typ))
 		sv.Elem().Set(reflect.MakeSlice(reflect.SliceOf(m.typ), n, n))
@@ -682,12 +688,12 @@ func (e *env) runStructShape(shape string, forceKey string) {
 			sv.Elem().Index(i).Set(rc.ptr.Elem())
 		}
 		if shape == "slice-values" {
-			res = e.tx().Create(sv.Interface())
 			e.op("%s.Create(&[]T{%s})", e.recv(), strings.Join(lits, ", "))
+			res = e.tx().Create(sv.Interface())
 		} else {
 			bs := r.Range(1, n+1)
-			res = e.tx().CreateInBatches(sv.Interface(), bs)
 			e.op("%s.CreateInBatches(&[]T{%s}, %d)", e.recv(), strings.Join(lits, ", "), bs)
+			res = e.tx().CreateInBatches(sv.Interface(), bs)
 			shape = fmt.Sprintf("%s/n%d/b%d", shape, n, bs)
 		}
 		for i, rc := range recs {
@@ -701,15 +707,15 @@ func (e *env) runStructShape(shape string, forceKey string) {
 		}
 		switch shape {
 		case "slice-pointers":
-			res = e.tx().Create(sp.Interface())
 			e.op("%s.Create(&[]*T{%s})", e.recv(), strings.Join(lits, ", "))
+			res = e.tx().Create(sp.Interface())
 		case "slice-pointers-byvalue":
-			res = e.tx().Create(sp.Elem().Interface())
 			e.op("%s.Create([]*T{%s})", e.recv(), strings.Join(lits, ", "))
+			res = e.tx().Create(sp.Elem().Interface())
 		default:
 			bs := r.Range(1, n+1)
-			res = e.tx().CreateInBatches(sp.Interface(), bs)
 			e.op("%s.CreateInBatches(&[]*T{%s}, %d)", e.recv(), strings.Join(lits, ", "), bs)
+			res = e.tx().CreateInBatches(sp.Interface(), bs)
 			shape = fmt.Sprintf("%s/n%d/b%d", shape, n, bs)
 		}
 	}
@@ -835,17 +841,17 @@ func (e *env) runMapShape(shape string) {
 	var res *gorm.DB
 	switch shape {
 	case "map":
-		res = e.tx().Model(e.newModelPtr()).Create(maps[0])
 		e.op("%s.Model(&T{}).Create(map[string]interface{}%s)", e.recv(), lits[0])
+		res = e.tx().Model(e.newModelPtr()).Create(maps[0])
 	case "map-pointer":
-		res = e.tx().Model(e.newModelPtr()).Create(&maps[0])
 		e.op("%s.Model(&T{}).Create(&map[string]interface{}%s)", e.recv(), lits[0])
+		res = e.tx().Model(e.newModelPtr()).Create(&maps[0])
 	case "maps":
-		res = e.tx().Model(e.newModelPtr()).Create(maps)
 		e.op("%s.Model(&T{}).Create([]map[string]interface{}{%s})", e.recv(), strings.Join(lits, ", "))
+		res = e.tx().Model(e.newModelPtr()).Create(maps)
 	default:
-		res = e.tx().Model(e.newModelPtr()).Create(&maps)
 		e.op("%s.Model(&T{}).Create(&[]map[string]interface{}{%s})", e.recv(), strings.Join(lits, ", "))
+		res = e.tx().Model(e.newModelPtr()).Create(&maps)
 	}
 	e.callBad = false
 	if res.Error != nil {
@@ -908,6 +914,57 @@ func clip60(s string) string {
 	return s
 }
 
+// rereadAll reads the records one after the other (First / Take by key into fresh structs), keeps
+// every result and compares them only after all reads of the round: a later read must not change
+// what an earlier one returned (pooled scan destinations), nor inherit anything from it. Models with
+// a self-serializing field repeat the round, so that the outcome does not hinge on which pooled
+// object sync.Pool hands back.
+func (e *env) rereadAll() {
+	e.current = "First/Take"
+	reps, limit := 1, 8
+	for _, l := range e.m.leaves {
+		if l.class == "self" {
+			reps, limit = 3, len(e.all)
+		}
+	}
+	where := e.pkWhere()
+	type got struct {
+		rc  *rec
+		out reflect.Value
+		how string
+	}
+	for rep := 0; rep < reps; rep++ {
+		var outs []got
+		for i, rc := range e.all {
+			if len(outs) >= limit {
+				break
+			}
+			if rc.keyBad || len(rc.pkArgs) != len(e.m.pks) {
+				continue
+			}
+			out := reflect.New(e.m.typ)
+			var res *gorm.DB
+			how := "First"
+			if (i+rep)%2 == 0 {
+				how = "Take"
+				res = e.tx().Where(where, rc.pkArgs...).Take(out.Interface())
+			} else {
+				res = e.tx().Where(where, rc.pkArgs...).First(out.Interface())
+			}
+			how = fmt.Sprintf("%s.Where(%q, %v).%s(&T{}) [read %d of round %d, compared after the round]", e.recv(), where, rc.pkArgs, how, len(outs)+1, rep+1)
+			if res.Error != nil {
+				e.problem("read-struct/error", "%s: %v", how, res.Error)
+				continue
+			}
+			outs = append(outs, got{rc, out, how})
+		}
+		for _, g := range outs {
+			e.compareStruct(g.rc, g.out.Elem(), g.how)
+		}
+		e.c.Add("consecutive_reads_compared_after_round", len(outs))
+	}
+}
+
 // finalFind loads the whole table through gorm and compares every record created in this database.
 func (e *env) finalFind() {
 	m := e.m
@@ -917,6 +974,8 @@ func (e *env) finalFind() {
 	for _, rc := range e.all {
 		byPayload[rc.payload] = rc
 	}
+	e.rereadAll()
+	e.current = "Find"
 	payOf := func(v reflect.Value) string { return getLeaf(v, m.payload).String() }
 	check := func(how string, n int, at func(i int) (string, func(rc *rec))) {
 		if !e.failed && n != len(e.all) {
@@ -1099,6 +1158,17 @@ func runEnv(c *core.Ctx, m *model, o optSpec, feats []string, info map[string]in
 	// Create([]map) by value goes last: where it panics inside gorm, the database handle is lost
 	c.Logf("SHAPE maps")
 	e.runMapShape("maps")
+	// last of all (a panic costs the handle): a nil *SelfJS, whose Value method has a value receiver
+	for _, l := range m.leaves {
+		if l.typ == ptrTo(SelfJS{}) {
+			c.Logf("SHAPE single with a nil %s", l.name())
+			c.Inc("nil_self_serializer_pointer_probes")
+			e.nilSelf = true
+			e.runStructShape("single", "")
+			e.nilSelf = false
+			break
+		}
+	}
 	if e.failed {
 		return false
 	}
@@ -1142,13 +1212,13 @@ func run(c *core.Ctx) {
 var Engine = &core.Engine{
 	ID:    "C03",
 	Level: "exploration",
-	Rule: "one generated model type per case (reflect.StructOf over 57 field kinds: all int/uint widths, floats, bool, string, []byte, time.Time, pointers to each, sql.Null*, " +
-		"custom Scanner/Valuer types string-/struct-/slice-/map-based with value and pointer receivers, serializer json/gob/unixtime; tags column (plain and mixed case), literal and " +
+	Rule: "one generated model type per case (reflect.StructOf over 62 field kinds: all int/uint widths, floats, bool, string, []byte, time.Time, pointers to each, sql.Null*, " +
+		"custom Scanner/Valuer types string-/struct-/slice-/map-based with value and pointer receivers, serializer json/gob/unixtime, types that are their own serializer with merging Scan (struct with omitempty members, map, slice, string; records get different member sets); tags column (plain and mixed case), literal and " +
 		"database-function defaults, default:null, autoCreateTime/autoUpdateTime (time, s, ms, ns; by tag and by name), not null, <- permissions; value- and pointer-embedded structs with " +
 		"embeddedPrefix, nested; keys: auto-increment (8 integer kinds, explicit/implicit/renamed), non-auto int, string, composite of 2 and 3) or, every 8th case, one of 3 static models " +
 		"(anonymous value/pointer embedding, gorm.Model, TableName, anonymous embeddedPrefix); each model x {RETURNING, LastInsertId reversed, LastInsertId first-id} on a fresh database x " +
 		"12 Create calls (single first, then in random order single, &[]T, &[]*T, []*T, CreateInBatches over values/pointers with batch 1..n+1, map, &map, &[]map, one more slice shape, and []map by value last; " +
-		"auto keys zero / explicit / mixed within one slice) with boundary values, then Find of the whole table into []T, []*T and []map with and without Model; " +
+		"auto keys zero / explicit / mixed within one slice) with boundary values, then consecutive First/Take of the records compared only after the round (3 rounds for self-serializing models) and Find of the whole table into []T, []*T and []map with and without Model; " +
 		"distinct = (feature set of the model, back-fill mode, create shape incl. slice length, batch size and key mode); non-trivial = the Create succeeded, every record's row was found by " +
 		"its in-memory key with raw SQL, and every column and every gorm read (First/Take/Find into structs and maps) was compared",
 	Assumptions: []string{
